@@ -12,7 +12,8 @@ from . import engine
 from .engine import log
 
 VERIF = engine.VERIF
-EVID = os.environ.get("VERIF_EVID") or os.path.join(VERIF, "evidence")
+# developer subset runs (VERIF_ONLY) never overwrite the committed evidence
+EVID = os.environ.get("VERIF_EVID") or ("/var/tmp/yuvxyb-verif-dev-evidence" if os.environ.get("VERIF_ONLY") else os.path.join(VERIF, "evidence"))
 KNOWN = os.path.join(VERIF, "known_findings.json")
 
 
